@@ -126,6 +126,19 @@ impl State {
     }
 }
 
+#[cfg(feature = "verif_hooks")]
+impl State {
+    /// Verification hook: builds a state from raw (key, nonce) parts.
+    pub fn verif_from_parts(k: Key, nonce: Nonce) -> Self {
+        Self { k, nonce }
+    }
+
+    /// Verification hook: returns the raw (key, nonce) parts of this state.
+    pub fn verif_parts(&self) -> (Key, Nonce) {
+        (self.k, self.nonce)
+    }
+}
+
 /// Generates a random stream key using [crate::rng::copy_randombytes].
 pub fn crypto_secretstream_xchacha20poly1305_keygen(key: &mut Key) {
     copy_randombytes(key);
